@@ -14,8 +14,11 @@ limitations under the License.
 package metadata
 
 import (
+	"errors"
 	"fmt"
 	"reflect"
+	"strconv"
+	"strings"
 
 	"github.com/mitchellh/mapstructure"
 	"github.com/spf13/cast"
@@ -51,6 +54,46 @@ func (q *ByteSize) GetBytes() (int64, error) {
 	return val, nil
 }
 
+// UnmarshalJSON implements json.Unmarshaler.
+func (q *ByteSize) UnmarshalJSON(value []byte) error {
+	err := checkQuantityExponent(strings.Trim(string(value), `"`))
+	if err != nil {
+		return err
+	}
+	return q.Quantity.UnmarshalJSON(value)
+}
+
+// maxQuantityExponent is the largest magnitude accepted for the decimal exponent of a quantity such as "5e3".
+// resource.ParseQuantity scales the number by 10^|exponent| with arbitrary-precision arithmetic: given an exponent
+// like -2147483647 (a 13-byte value) it keeps computing, and allocating, for hours.
+// Quantities are capped at 2^63-1 and are rounded up to 1n, so no representable value needs a larger exponent.
+const maxQuantityExponent = 1024
+
+func checkQuantityExponent(str string) error {
+	i := strings.LastIndexAny(str, "eE")
+	if i < 0 {
+		return nil
+	}
+	exp, err := strconv.ParseInt(str[i+1:], 10, 64)
+	if err != nil {
+		// Not a decimal exponent (for example, the "E" or "Ei" suffixes): nothing to check here
+		return nil
+	}
+	if exp > maxQuantityExponent || exp < -maxQuantityExponent {
+		return errors.New("quantity's exponent is out of range")
+	}
+	return nil
+}
+
+// parseQuantity is resource.ParseQuantity with a bound on the decimal exponent.
+func parseQuantity(str string) (resource.Quantity, error) {
+	err := checkQuantityExponent(str)
+	if err != nil {
+		return resource.Quantity{}, err
+	}
+	return resource.ParseQuantity(str)
+}
+
 func toByteSizeHookFunc() mapstructure.DecodeHookFunc {
 	bytesizeType := reflect.TypeOf(ByteSize{})
 	bytesizePtrType := reflect.TypeOf(&ByteSize{})
@@ -78,7 +121,7 @@ func toByteSizeHookFunc() mapstructure.DecodeHookFunc {
 		}
 
 		// Parse as quantity
-		q, err := resource.ParseQuantity(str)
+		q, err := parseQuantity(str)
 		if err != nil {
 			return nil, fmt.Errorf("value is not a valid quantity: %w", err)
 		}
